@@ -7,6 +7,8 @@ package mtproto
 // harness is the server, written from core.telegram.org/mtproto/auth_key.
 
 import (
+	"io"
+
 	"crypto/aes"
 	"crypto/rsa"
 	"crypto/sha1"
@@ -123,6 +125,9 @@ func newHandshakeEnv(p, q uint32, nonceLZ, newNonceLZ int) *hsEnv {
 	h.bSecret = verifrt.Bytes(256)
 	verifrt.Hook("(*math/big.Int).Rand", func(z *big.Int, rnd *rand.Rand, n *big.Int) *big.Int {
 		return z.SetBytes(h.bSecret) // the DH exponent: any value below 2^2048 (C19 checks where it comes from)
+	})
+	verifrt.Hook("crypto/rand.Int", func(r io.Reader, max *big.Int) (*big.Int, error) {
+		return new(big.Int).SetBytes(h.bSecret), nil
 	})
 	verifrt.Hook("github.com/xelaj/mtproto/internal/math.SplitPQ", func(pq *big.Int) (*big.Int, *big.Int) {
 		return big.NewInt(int64(p)), big.NewInt(int64(q))
